@@ -465,6 +465,13 @@ class App:
 
             req_succeeded = False
 
+            # NOTE: render what the error handler put on the response, so
+            #   that its body is not lost; if that fails too, send no body.
+            try:
+                body, length = self._get_body(resp, env.get('wsgi.file_wrapper'))
+            except Exception:
+                body, length = [], 0
+
         resp_status: str = code_to_http_status(resp.status)
         default_media_type: Optional[str] = self.resp_options.default_media_type
 
